@@ -261,6 +261,9 @@ func genC17(c *Ctx) {
 	g.emitMessages()
 	// sites
 	g.emitSites()
+	// where the statistics and the field length of a real search come from (phase 2)
+	g.emitStatsFacts()
+	g.emitLengthFacts()
 	g.emitted = append(g.emitted, "end BlugeGen.C17\n")
 	c.WriteLean("C17", strings.Join(g.emitted, ""))
 	names := []string{}
@@ -1428,4 +1431,388 @@ func (g *c17gen) emitSites() {
 	b.WriteString("]\n\n")
 	g.emitted = append(g.emitted, b.String())
 	g.c.Summary["explain_sites"] = len(sites)
+}
+
+// ---------------------------------------------------------------------------------------------- phase 2 facts
+//
+// The theorems `n_le_N_of_segments` / `real_hit_score_pos_bounded` model the statistics of a term searcher as sums over
+// one list of segments. The facts below are what that model reads off the source; each is a coarse, whitespace-normalised
+// shape test of a few statements (so that a harmless rewrite rarely trips it, and a change of the summing structure —
+// a skipped segment, a different reader, a missing deleted bitmap — does).
+
+var c17reSpace = regexp.MustCompile(`\s+`)
+
+// flat renders a node on one line with single spaces.
+func c17flat(p *Pkg, n ast.Node) string {
+	return strings.TrimSpace(c17reSpace.ReplaceAllString(p.Src(n), " "))
+}
+
+type c17fact struct {
+	name string
+	ok   bool
+}
+
+func (g *c17gen) writeFacts(defName, doc string, facts []c17fact) {
+	var b strings.Builder
+	fmt.Fprintf(&b, "/-- %s -/\ndef %s : List (String × Bool) := [\n", doc, defName)
+	for i, f := range facts {
+		sep := ","
+		if i == len(facts)-1 {
+			sep = ""
+		}
+		fmt.Fprintf(&b, "  (%s, %v)%s\n", LeanStr(f.name), f.ok, sep)
+	}
+	b.WriteString("]\n\n")
+	g.emitted = append(g.emitted, b.String())
+	m := map[string]bool{}
+	for _, f := range facts {
+		m[f.name] = f.ok
+	}
+	g.c.Summary[defName] = m
+}
+
+// rangeLoops returns the `for … range <over>` statements of a function body (flat text of the ranged expression).
+func c17rangeLoops(p *Pkg, body *ast.BlockStmt, over string) []*ast.RangeStmt {
+	var out []*ast.RangeStmt
+	ast.Inspect(body, func(n ast.Node) bool {
+		if r, ok := n.(*ast.RangeStmt); ok && c17flat(p, r.X) == over {
+			out = append(out, r)
+		}
+		return true
+	})
+	return out
+}
+
+// hasBranch reports a break/continue/goto/return-free loop body? -> true when the body contains break, continue or goto.
+func c17hasJump(body *ast.BlockStmt) bool {
+	found := false
+	ast.Inspect(body, func(n ast.Node) bool {
+		if b, ok := n.(*ast.BranchStmt); ok && (b.Tok == token.BREAK || b.Tok == token.CONTINUE || b.Tok == token.GOTO) {
+			found = true
+		}
+		return true
+	})
+	return found
+}
+
+// stmtTexts lists the flat text of every statement directly inside a block.
+func c17stmtTexts(p *Pkg, b *ast.BlockStmt) []string {
+	var out []string
+	for _, s := range b.List {
+		out = append(out, c17flat(p, s))
+	}
+	return out
+}
+
+func c17contains(xs []string, want string) bool {
+	for _, x := range xs {
+		if x == want {
+			return true
+		}
+	}
+	return false
+}
+
+func c17recvName(fd *ast.FuncDecl) string {
+	if fd == nil || fd.Recv == nil || len(fd.Recv.List) != 1 || len(fd.Recv.List[0].Names) != 1 {
+		return "_"
+	}
+	return fd.Recv.List[0].Names[0].Name
+}
+
+func (g *c17gen) emitStatsFacts() {
+	ip := g.c.ParseDir("index")
+	sp := g.c.ParseDir("search/searcher")
+	var facts []c17fact
+	add := func(name string, ok bool) { facts = append(facts, c17fact{name, ok}) }
+
+	// (1) Snapshot.CollectionStats: after the virtual-field branch, ONE loop over every segment of the snapshot folds Merge
+	cs := ip.Func("Snapshot.CollectionStats")
+	if cs == nil || cs.Body == nil {
+		g.c.Refuse("index: Snapshot.CollectionStats not found (anchor moved)")
+	}
+	r := c17recvName(cs)
+	ok1 := false
+	loops := c17rangeLoops(ip, cs.Body, r+".segment")
+	if len(loops) == 1 && !c17hasJump(loops[0].Body) && loops[0].Key != nil && c17flat(ip, loops[0].Key) == "_" && loops[0].Value != nil {
+		seg := c17flat(ip, loops[0].Value)
+		st := c17stmtTexts(ip, loops[0].Body)
+		ok1 = len(st) == 3 &&
+			st[0] == "segStats, err := "+seg+".segment.CollectionStats(field)" &&
+			st[1] == "if err != nil { return nil, err }" &&
+			st[2] == "if rv == nil { rv = segStats } else { rv.Merge(segStats) }"
+		// the loop is a top-level statement of the function and is followed by `return rv, nil`
+		top := c17stmtTexts(ip, cs.Body)
+		ok1 = ok1 && len(top) >= 3 && top[len(top)-1] == "return rv, nil" && top[len(top)-2] == c17flat(ip, loops[0]) &&
+			strings.HasSuffix(top[len(top)-3], "var rv segment.CollectionStats") // (a comment may precede the declaration)
+	}
+	add("CollectionStats-folds-Merge-over-every-segment", ok1)
+
+	// (2) the index's own collectionStats.Merge adds the three counters (the virtual-field statistics; the plugin's Merge
+	// is dependency code and is validated by the correspondence run: N leaf = sum of the per-segment counts)
+	mg := ip.Func("collectionStats.Merge")
+	ok2 := false
+	if mg != nil && mg.Body != nil {
+		c := c17recvName(mg)
+		st := c17stmtTexts(ip, mg.Body)
+		ok2 = len(st) == 3 && c17contains(st, c+".docCount += other.DocumentCount()") &&
+			c17contains(st, c+".sumTotalTermFreq += other.SumTotalTermFrequency()") &&
+			c17contains(st, c+".totalDocCount += other.TotalDocumentCount()")
+	}
+	add("index-collectionStats-Merge-adds-counts", ok2)
+
+	// (3) postingsIterator.Count sums Count() of every postings list
+	pc := ip.Func("postingsIterator.Count")
+	ok3 := false
+	if pc != nil && pc.Body != nil {
+		i := c17recvName(pc)
+		st := c17stmtTexts(ip, pc.Body)
+		ok3 = len(st) == 3 && st[0] == "var rv uint64" &&
+			st[1] == "for _, posting := range "+i+".postings { rv += posting.Count() }" && st[2] == "return rv"
+	}
+	add("postingsIterator-Count-sums-every-list", ok3)
+
+	// (4,5) Snapshot.PostingsIterator: one dictionary and one postings list per segment, the list built with the segment's
+	// deleted bitmap as `except`
+	pi := ip.Func("Snapshot.PostingsIterator")
+	if pi == nil || pi.Body == nil {
+		g.c.Refuse("index: Snapshot.PostingsIterator not found (anchor moved)")
+	}
+	ri := c17recvName(pi)
+	ok4, ok5 := false, false
+	for _, l := range c17rangeLoops(ip, pi.Body, ri+".segment") {
+		if l.Key == nil || l.Value == nil || c17hasJump(l.Body) {
+			continue
+		}
+		k, seg := c17flat(ip, l.Key), c17flat(ip, l.Value)
+		st := c17stmtTexts(ip, l.Body)
+		if c17contains(st, "pl, err := rv.dicts["+k+"].PostingsList(term, "+seg+".deleted, rv.postings["+k+"])") &&
+			c17contains(st, "rv.postings["+k+"] = pl") {
+			// every other statement of the loop is an error check or the iterator construction
+			rest := true
+			for _, x := range st {
+				if !(strings.HasPrefix(x, "pl, err := ") || x == "rv.postings["+k+"] = pl" || x == "if err != nil { return nil, err }" ||
+					strings.HasPrefix(x, "rv.iterators["+k+"], err = pl.Iterator(")) {
+					rest = false
+				}
+			}
+			ok4 = rest
+		}
+		if c17contains(st, "dict, err := "+seg+".segment.Dictionary(field)") && c17contains(st, "rv.dicts["+k+"] = dict") {
+			ok5 = true
+		}
+	}
+	top := c17flat(ip, pi.Body)
+	ok4 = ok4 && strings.Contains(top, "rv.postings = make([]segment.PostingsList, len("+ri+".segment))")
+	ok5 = ok5 && strings.Contains(top, "rv.dicts = make([]segment.Dictionary, len("+ri+".segment))")
+	add("PostingsIterator-one-list-per-segment-except-deleted", ok4)
+	add("PostingsIterator-one-dictionary-per-segment", ok5)
+
+	// (6,7) the term searcher: statistics and postings from the SAME reader for the SAME field; docFreq = reader.Count()
+	nb := sp.Func("NewTermSearcherBytes")
+	nf := sp.Func("newTermSearcherFromReader")
+	if nb == nil || nf == nil || nb.Body == nil || nf.Body == nil {
+		g.c.Refuse("search/searcher: NewTermSearcherBytes / newTermSearcherFromReader not found (anchor moved)")
+	}
+	nbT, nfT := c17flat(sp, nb.Body), c17flat(sp, nf.Body)
+	ok6 := strings.Contains(nbT, "reader, err := indexReader.PostingsIterator(term, field, needFreqNorm, needFreqNorm, options.IncludeTermVectors)") &&
+		strings.Contains(nbT, "return newTermSearcherFromReader(indexReader, reader, term, field, boost, scorer, options)") &&
+		strings.Contains(nfT, "collStats, err := indexReader.CollectionStats(field)")
+	// parameter order of newTermSearcherFromReader
+	var pnames []string
+	for _, p := range nf.Type.Params.List {
+		for _, n := range p.Names {
+			pnames = append(pnames, n.Name)
+		}
+	}
+	ok6 = ok6 && strings.Join(pnames, ",") == "indexReader,reader,term,field,boost,scorer,options"
+	add("term-searcher-stats-from-same-reader-and-field", ok6)
+	dfm := sp.Func("termStatsWrapper.DocumentFrequency")
+	ok7 := strings.Contains(nfT, "scorer = options.SimilarityForField(field).Scorer(boost, collStats, &termStatsWrapper{docFreq: reader.Count()})") &&
+		dfm != nil && dfm.Body != nil && c17flat(sp, dfm.Body) == "{ return "+c17recvName(dfm)+".docFreq }"
+	add("term-searcher-docFreq-is-reader-Count", ok7)
+
+	// (8) the only call of Similarity.Scorer in package searcher (and none in the root package's query code)
+	count := 0
+	for _, f := range sp.Files {
+		ast.Inspect(f, func(n ast.Node) bool {
+			if c, ok := n.(*ast.CallExpr); ok {
+				if s, ok := c.Fun.(*ast.SelectorExpr); ok && s.Sel.Name == "Scorer" && len(c.Args) == 3 {
+					count++
+				}
+			}
+			return true
+		})
+	}
+	rp := g.c.ParseDir(".")
+	for _, f := range rp.Files {
+		ast.Inspect(f, func(n ast.Node) bool {
+			if c, ok := n.(*ast.CallExpr); ok {
+				if s, ok := c.Fun.(*ast.SelectorExpr); ok && s.Sel.Name == "Scorer" && len(c.Args) == 3 {
+					count++
+				}
+			}
+			return true
+		})
+	}
+	add("single-similarity-Scorer-site", count == 1)
+
+	// (9) frequencies and norms are loaded unless the score mode is "none" (then Score sees freq 0, norm 0: outside 1 <= f)
+	add("freq-norm-loaded-unless-score-none", strings.Contains(nbT, `needFreqNorm := options.Score != "none"`))
+
+	g.writeFacts("statsFacts", "how package index and the term searcher obtain `N`, `sumTotalTermFreq` and `n` (index/snapshot.go, index/postings.go, search/searcher/search_term.go): (fact, holds)", facts)
+}
+
+func (g *c17gen) emitLengthFacts() {
+	rp := g.c.ParseDir(".")
+	ap := g.c.ParseDir("analysis")
+	var facts []c17fact
+	add := func(name string, ok bool) { facts = append(facts, c17fact{name, ok}) }
+
+	// every write of a selector `.analyzedLength` in the root package
+	type wr struct{ fn, text string }
+	var writes []wr
+	for _, f := range rp.Files {
+		for _, d := range f.Decls {
+			fd, ok := d.(*ast.FuncDecl)
+			if !ok || fd.Body == nil {
+				continue
+			}
+			name := fd.Name.Name
+			if fd.Recv != nil && len(fd.Recv.List) == 1 {
+				t := fd.Recv.List[0].Type
+				if s, ok := t.(*ast.StarExpr); ok {
+					t = s.X
+				}
+				if id, ok := t.(*ast.Ident); ok {
+					name = id.Name + "." + name
+				}
+			}
+			ast.Inspect(fd.Body, func(n ast.Node) bool {
+				switch x := n.(type) {
+				case *ast.AssignStmt:
+					for _, l := range x.Lhs {
+						if s, ok := l.(*ast.SelectorExpr); ok && s.Sel.Name == "analyzedLength" {
+							writes = append(writes, wr{name, c17flat(rp, x)})
+						}
+					}
+				case *ast.IncDecStmt:
+					if s, ok := x.X.(*ast.SelectorExpr); ok && s.Sel.Name == "analyzedLength" {
+						writes = append(writes, wr{name, c17flat(rp, x)})
+					}
+				case *ast.KeyValueExpr:
+					if id, ok := x.Key.(*ast.Ident); ok && id.Name == "analyzedLength" {
+						writes = append(writes, wr{name, c17flat(rp, x)})
+					}
+				}
+				return true
+			})
+		}
+	}
+	sort.Slice(writes, func(i, j int) bool { return writes[i].fn < writes[j].fn })
+	okW := len(writes) == 2 && writes[0].fn == "CompositeField.Consume" && writes[1].fn == "TermField.Analyze"
+	add("analyzedLength-written-twice", okW)
+
+	// TermField.Analyze: `b.analyzedLength = len(tokens)` immediately followed by the frequencies of the same `tokens`
+	an := rp.Func("TermField.Analyze")
+	okA := false
+	if an != nil && an.Body != nil {
+		b := c17recvName(an)
+		st := c17stmtTexts(rp, an.Body)
+		for i := 0; i+1 < len(st); i++ {
+			if st[i] == b+".analyzedLength = len(tokens)" &&
+				st[i+1] == b+".analyzedTokenFreqs, lastPos = analysis.TokenFrequency(tokens, "+b+".IncludeLocations(), startOffset)" {
+				okA = true
+			}
+		}
+	}
+	add("Analyze-length-is-len-tokens-beside-TokenFrequency-of-tokens", okA)
+
+	// CompositeField.Consume: length and frequencies of the consumed field are added together, under the same guard
+	co := rp.Func("CompositeField.Consume")
+	okC := false
+	if co != nil && co.Body != nil && len(co.Body.List) == 1 {
+		c := c17recvName(co)
+		if is, ok := co.Body.List[0].(*ast.IfStmt); ok && is.Else == nil && is.Init == nil &&
+			c17flat(rp, is.Cond) == c+".includesField(field.Name())" {
+			st := c17stmtTexts(rp, is.Body)
+			okC = len(st) == 2 && st[0] == c+".analyzedLength += field.Length()" &&
+				st[1] == c+".analyzedTokenFreqs.MergeAll(field.Name(), field.AnalyzedTokenFrequencies())"
+		}
+	}
+	add("Consume-adds-length-beside-MergeAll", okC)
+
+	// Length() of both field kinds returns analyzedLength; AnalyzedTokenFrequencies/EachTerm read analyzedTokenFreqs
+	okL := true
+	for _, fn := range []string{"TermField.Length", "CompositeField.Length"} {
+		fd := rp.Func(fn)
+		if fd == nil || fd.Body == nil || c17flat(rp, fd.Body) != "{ return "+c17recvName(fd)+".analyzedLength }" {
+			okL = false
+		}
+	}
+	if fd := rp.Func("TermField.AnalyzedTokenFrequencies"); fd == nil || fd.Body == nil ||
+		c17flat(rp, fd.Body) != "{ return "+c17recvName(fd)+".analyzedTokenFreqs }" {
+		okL = false
+	}
+	for _, fn := range []string{"TermField.EachTerm", "CompositeField.EachTerm"} {
+		fd := rp.Func(fn)
+		if fd == nil || fd.Body == nil || c17flat(rp, fd.Body) != "{ for _, v := range "+c17recvName(fd)+".analyzedTokenFreqs { vt(v) } }" {
+			okL = false
+		}
+	}
+	add("Length-returns-analyzedLength", okL)
+
+	// analysis.TokenFrequency: two loops over `tokens`; every write of `frequency` is `curr.frequency++` or `frequency: 1`
+	tf := ap.Func("TokenFrequency")
+	okT := false
+	if tf != nil && tf.Body != nil {
+		loops := c17rangeLoops(ap, tf.Body, "tokens")
+		good, bad := 0, 0
+		ast.Inspect(tf.Body, func(n ast.Node) bool {
+			switch x := n.(type) {
+			case *ast.IncDecStmt:
+				if s, ok := x.X.(*ast.SelectorExpr); ok && s.Sel.Name == "frequency" {
+					if x.Tok == token.INC {
+						good++
+					} else {
+						bad++
+					}
+				}
+			case *ast.AssignStmt:
+				for _, l := range x.Lhs {
+					if s, ok := l.(*ast.SelectorExpr); ok && s.Sel.Name == "frequency" {
+						bad++
+					}
+				}
+			case *ast.KeyValueExpr:
+				if id, ok := x.Key.(*ast.Ident); ok && id.Name == "frequency" {
+					if c17flat(ap, x.Value) == "1" {
+						good++
+					} else {
+						bad++
+					}
+				}
+			}
+			return true
+		})
+		jump := false
+		for _, l := range loops {
+			if c17hasJump(l.Body) {
+				jump = true
+			}
+		}
+		okT = len(loops) == 2 && good == 4 && bad == 0 && !jump
+	}
+	add("TokenFrequency-adds-one-per-token", okT)
+
+	// config.go: the norm calculator handed to the index is the similarity's ComputeNorm (per field or default)
+	dc := rp.Func("defaultConfig")
+	okN := false
+	if dc != nil && dc.Body != nil {
+		t := c17flat(rp, dc.Body)
+		okN = strings.Contains(t, "indexConfig.WithNormCalc(func(field string, length int) float32 { if pfs, ok := rv.PerFieldSimilarity[field]; ok { return pfs.ComputeNorm(length) } return rv.DefaultSimilarity.ComputeNorm(length) })")
+	}
+	add("norm-calc-is-similarity-ComputeNorm", okN)
+
+	g.writeFacts("lengthFacts", "how a field's length and term frequencies are produced (field.go, analysis/freq.go, config.go): (fact, holds)", facts)
 }
